@@ -73,6 +73,11 @@ pub fn check(v: &View, vd: &mut Verdict) {
                     if cut_by_end {
                         continue;
                     }
+                    // exactly t: the property speaks of "less" and "more" - either outcome is right (the
+                    // generators never produce it, a minimised or hand-written replay file may)
+                    if cfg.is_some_and(|(t, _)| d == t as u64) {
+                        continue;
+                    }
                     if i.exit.is_none() {
                         let sig = match cfg {
                             Some((t, _)) => format!("C11/fast_abandoned/d={}", if d < t as u64 { "less" } else { "equal" }),
